@@ -31,6 +31,7 @@ def families(tier):
         ("handshake", topos.HANDSHAKE, 3, 4),
         ("ring2_dfix", topos.RINGS_OK["ring2_dfix"], 3, 4),
         ("tap_scale_and_linear", topos.TAPS["tap_scale_and_linear"], 2, 3),
+        ("tap_shared_scale", dict(topos.TAPS["tap_shared_scale"], order=None), 2, 3),
     ]
     fams = []
     for name, topo, uq, ut in table:
@@ -41,7 +42,9 @@ def families(tier):
         perms = list(itertools.permutations(range(n)))
         lperms = list(itertools.permutations(range(m)))
         combos = [(po, lo) for po in perms for lo in lperms if not (po == perms[0] and lo == lperms[0])]
-        if q:
+        if q and name == "tap_shared_scale":
+            pass  # all listing orders: the producer must also be tried BETWEEN its two consumers
+        elif q:
             # reversed listing + reversed linking, and each alone
             pick = {(perms[-1], lperms[-1]), (perms[-1], lperms[0]), (perms[0], lperms[-1])}
             combos = [c for c in combos if c in pick]
